@@ -16,6 +16,9 @@ import (
 type c13Piece struct {
 	Value int   `json:"v"`           // index of a planted value, or -1 for filler
 	Fill  []int `json:"f,omitempty"` // filler vocabulary indices
+	// Glue: the copy is glued to a word character without a blank in between (1 in front, 2 behind, 3 both): the copy
+	// is still there byte for byte, but it does not start / end at a token boundary of the unknown string.
+	Glue int `json:"glue,omitempty"`
 }
 
 type c13Case struct {
@@ -72,7 +75,7 @@ func c13Gen(t *rapid.T) interface{} {
 	for i := 0; i < nv; i++ {
 		n := lib.IntN(t, 1, 60, "ntokens")
 		if lib.IntN(t, 0, 4, "short") == 0 {
-			n = lib.IntN(t, 1, 3, "ntokensShort")
+			n = lib.IntN(t, 1, 5, "ntokensShort")
 		}
 		v := lib.Ints(t, n-1, n-1, 0, len(c.Vocab)-1, "valueTokens")
 		pos := lib.IntN(t, 0, len(v), "uniquePos")
@@ -98,7 +101,11 @@ func c13Gen(t *rapid.T) interface{} {
 		if lib.IntN(t, 0, 2, "pieceKind") == 0 {
 			c.Unknown = append(c.Unknown, c13Piece{Value: -1, Fill: lib.Ints(t, 0, 25, 0, len(c.Vocab)-1, "filler")})
 		} else {
-			c.Unknown = append(c.Unknown, c13Piece{Value: lib.IntN(t, 0, nv-1, "planted")})
+			pc := c13Piece{Value: lib.IntN(t, 0, nv-1, "planted")}
+			if lib.IntN(t, 0, 4, "glued") == 0 {
+				pc.Glue = lib.IntN(t, 1, 3, "glue")
+			}
+			c.Unknown = append(c.Unknown, pc)
 		}
 	}
 	return c
@@ -163,12 +170,23 @@ func c13Check(ci interface{}) lib.Outcome {
 		}
 	}
 	var parts []string
+	glued := false
 	for k, p := range c.Unknown {
 		if c.Sep && k > 0 {
 			parts = append(parts, "sepword")
 		}
 		if p.Value >= 0 {
-			parts = append(parts, values[p.Value%len(values)])
+			v := values[p.Value%len(values)]
+			if p.Glue%4 == 1 || p.Glue%4 == 3 {
+				v = "zq" + v
+			}
+			if p.Glue%4 >= 2 {
+				v = v + "qz"
+			}
+			if p.Glue%4 != 0 {
+				glued = true
+			}
+			parts = append(parts, v)
 		} else {
 			for _, w := range p.Fill {
 				parts = append(parts, c.Vocab[((w%len(c.Vocab))+len(c.Vocab))%len(c.Vocab)])
@@ -284,6 +302,9 @@ func c13Check(ci interface{}) lib.Outcome {
 	if c.Alone {
 		classes = append(classes, "unknown-equals-value")
 	}
+	if glued {
+		classes = append(classes, "copy-glued-to-word-characters")
+	}
 	if len(c.Pad) > 0 {
 		classes = append(classes, "values-with-leading/trailing-white-space")
 	}
@@ -293,6 +314,6 @@ func c13Check(ci interface{}) lib.Outcome {
 
 func TestVerif_C13(t *testing.T) {
 	lib.Run(t, lib.Spec{ID: "C13", Part: "verbatim",
-		Rule: "vocabulary mixed from letters / digits / ASCII punctuation / regular-expression metacharacters / Unicode / invalid UTF-8; 1-8 known values of 1-60 whitespace separated tokens, each with one token unique to it (none occurs inside another); 0-3 normalisers from {FlattenWhitespace, ToLower, TrimSpace, identity}; thresholds 0.01-1; unknown = filler and planted copies separated by blanks, or exactly one value; values optionally with leading / trailing white space; oracle: AddValue never panics, every verbatim copy in the normalised unknown reported as {key, 1.0, exact Offset, exact Extent}, NearestMatch(value) = {key, 1.0}, all results inside the normalised unknown with confidence in (0,1]; non-trivial = a planted copy and (metacharacters or non-ASCII or several copies)",
+		Rule: "vocabulary mixed from letters / digits / ASCII punctuation / regular-expression metacharacters / Unicode / invalid UTF-8; 1-8 known values of 1-60 whitespace separated tokens, each with one token unique to it (none occurs inside another); 0-3 normalisers from {FlattenWhitespace, ToLower, TrimSpace, identity}; thresholds 0.01-1; unknown = filler and planted copies separated by blanks, or exactly one value; copies optionally glued to word characters (not at a token boundary); values optionally with leading / trailing white space; oracle: AddValue never panics, every verbatim copy in the normalised unknown reported as {key, 1.0, exact Offset, exact Extent}, NearestMatch(value) = {key, 1.0}, all results inside the normalised unknown with confidence in (0,1]; non-trivial = a planted copy and (metacharacters or non-ASCII or several copies)",
 		New:  func() interface{} { return &c13Case{} }, Gen: c13Gen, Check: c13Check})
 }
